@@ -76,7 +76,7 @@ PROPS = {
     },
     "C14": {
         "controls": ["FLW-guard"],
-        "rules": [("FLW-4", flw2.flw4), ("FLW-4g", r5.flw4g), ("TAB-8", r5.tab8), ("SUP-8", r5.sup8)],
+        "rules": [("FLW-4", flw2.flw4), ("FLW-4g", r5.flw4g), ("FLW-4h", r5.flw4h), ("TAB-8", r5.tab8), ("SUP-8", r5.sup8)],
         "explanation": "Decides the write-effect clauses of C14 on MIR: Segment::apply_seg_mods cannot reach a syllable by type; in Syllable::apply_syll_mods every write "
                        "of stress (tone) is reachable only on a Some edge of mods.stress[i] (mods.tone) and nothing else is written; in apply_supras every insertion/"
                        "removal of segment copies is reachable only on a Some edge of mods.length[i]; Syllable::apply_seg_mods only maps the segment-level function "
